@@ -499,6 +499,18 @@ class World(object):
             except (ValueError, AttributeError):
                 pass
             return
+        if act.get('selfwiden'):
+            # fault F10 (C02 profile): the handler WIDENS the word of the object it is notified about while that
+            # object's resize() is re-storing the value ("grow on overflow"); whatever the values end up as, the
+            # object must come out well-formed - metadata and dtype string spelling the format it really has
+            if st is None or k is None or k != st.dest or st.op.get('op') != 'resize' or st.depth != 0 \
+                    or st.extra.get('selfwiden') or not isinstance(obj.n_word, int) or obj.n_word + act['selfwiden'] > 52:
+                self.bump('fault_F10_dropped')
+                return
+            self.bump('fault_F10_fired')
+            st.extra['selfwiden'] = act['selfwiden']
+            obj.resize(n_word=obj.n_word + act['selfwiden'])
+            return
         if act.get('selfreset'):
             # fault F8, second form: the handler calls reset() on the object it is notified about
             # (a "count and re-arm" handler), in the middle of that object's write
@@ -2429,6 +2441,9 @@ class World(object):
         elif op.get('unregister'):
             cb.armed[op['site']] = {'unregister': True}
             self.bump('fault_F7_unregister_armed')
+        elif op.get('selfwiden'):
+            cb.armed[op['site']] = {'selfwiden': int(op['selfwiden'])}
+            self.bump('fault_F10_armed')
         elif op.get('selfreset'):
             cb.armed[op['site']] = {'selfreset': True}
             self.bump('fault_F8_armed')
